@@ -319,6 +319,10 @@ def gen_call(t: Tape, idx: int, corpus: list, heavy: bool = False) -> dict:
         if mode == "changes":
             a["changes"] = t.pick([{"MARK": "z"}, {"META.STATUS": "ACTIVE", "ADDED": ["p", 1]}, {"K0": {"$op": "DELETE"}},
                                    {"META": {"VERSION": "9"}, "N": None}], "wr.ch")
+        # what the target path names: a file (or nothing), an existing DIRECTORY, something below a regular file, an over-long
+        # name -- error envelopes are results too -- and whether the path is given relative to the working directory
+        c["tstate"] = t.weighted([("file", 12), ("dir", 1), ("parent_file", 1), ("long", 1)], "wr.tstate")
+        c["rel"] = bool(t.flag(150, "wr.rel"))
         if t.flag(250, "wr.dry"):
             a["corrections_only"] = True
         if mode == "content":
@@ -410,8 +414,17 @@ def mask(o, root: str | None):
     return o
 
 
-def serialise(result, root: str | None) -> str:
-    return json.dumps(mask(result, root), ensure_ascii=False, indent=None, sort_keys=False, default=lambda x: {"$repr": repr(x)})
+def serialise(result, root: str | None, c: dict | None = None) -> str:
+    out = json.dumps(mask(result, root), ensure_ascii=False, indent=None, sort_keys=False, default=lambda x: {"$repr": repr(x)})
+    if c is not None and c.get("rel") and c.get("api") == "tool.write":
+        # the private directory of a relative-target call carries the call's id (twins of one call get their own): not part of
+        # the input.  Where a relative target cannot be used safely (cwd '/') the call ran on the absolute spelling of the same
+        # place; it is reported in the relative spelling so that it stays comparable with the golden run
+        import re
+
+        out = out.replace(f"<ROOT>/call{c['id']}/", "relw_N/")
+        out = re.sub(r"relw_\d+(?:_\d+)?", "relw_N", out)
+    return out
 
 
 # ---- execution -----------------------------------------------------------------------------------------------------
@@ -431,15 +444,61 @@ def shared_tools():
     return _tools
 
 
+def _rel_ok() -> bool:
+    """Relative targets are only used when the working directory is one of OUR scratch directories (never '/')."""
+    cwd = os.getcwd()
+    base = os.environ.get("VERIF_SCRATCH_BASE")
+    return cwd.startswith("/dev/shm/ov") or bool(base and cwd.startswith(base.rstrip("/") + "/"))
+
+
+def write_dir(c: dict, d: str) -> str:
+    """Directory the write call works in: the call's private sandbox directory, or -- spelled RELATIVE to the working
+    directory -- a private directory below the working directory."""
+    if c.get("rel") and _rel_ok():
+        return f"relw_{c['id']}_{os.getpid()}"  # worker processes share the working directories: one private directory per process
+    return d
+
+
+def _cleanup_rel(c: dict, d: str):
+    if c.get("api") == "tool.write":
+        wd = write_dir(c, d)
+        if wd != d:
+            shutil.rmtree(wd, ignore_errors=True)
+
+
+def write_target(c: dict, d: str) -> str:
+    wd = write_dir(c, d)
+    ts = c.get("tstate", "file")
+    if ts == "parent_file":
+        return os.path.join(wd, "notes.md", "t.oct.md")
+    if ts == "long":
+        return os.path.join(wd, "L" * 300 + ".oct.md")
+    return os.path.join(wd, "t.oct.md")
+
+
 def prepare_sandbox(c: dict, sandbox: str) -> str:
     """A private, identically populated directory for this call.  Returns its path."""
     d = os.path.join(sandbox, f"call{c['id']}")
     if os.path.isdir(d):
         shutil.rmtree(d)
     os.makedirs(d)
-    if c["api"] == "tool.write" and c.get("initial") is not None:
-        with open(os.path.join(d, "t.oct.md"), "w", encoding="utf-8") as f:
-            f.write(c["initial"])
+    if c["api"] == "tool.write":
+        wd = write_dir(c, d)
+        if wd != d:
+            if os.path.isdir(wd):
+                shutil.rmtree(wd)
+            os.makedirs(wd)
+        ts = c.get("tstate", "file")
+        if ts == "dir":
+            os.makedirs(os.path.join(wd, "t.oct.md"))
+            with open(os.path.join(wd, "t.oct.md", "inside.txt"), "w", encoding="utf-8") as f:
+                f.write("a directory with an allowed extension\n")
+        elif ts == "parent_file":
+            with open(os.path.join(wd, "notes.md"), "w", encoding="utf-8") as f:
+                f.write("a regular file where a directory is expected\n")
+        elif ts == "file" and c.get("initial") is not None:
+            with open(os.path.join(wd, "t.oct.md"), "w", encoding="utf-8") as f:
+                f.write(c["initial"])
     if c["api"] in ("tool.validate_file", "cli"):
         with open(os.path.join(d, "in.oct.md"), "w", encoding="utf-8") as f:
             f.write(c["text"] or "")
@@ -458,7 +517,7 @@ def tool_coroutine(c: dict, d: str):
         kw = dict(c.get("args", {}))
         if c["mode"] == "content":
             kw["content"] = c["text"]
-        return tools["write"].execute(target_path=os.path.join(d, "t.oct.md"), **kw)
+        return tools["write"].execute(target_path=write_target(c, d), **kw)
     if api == "tool.eject":
         return tools["eject"].execute(content=c["text"], schema=c["schema"], **c.get("args", {}))
     if api == "tool.compile_grammar":
@@ -472,13 +531,18 @@ def finish_tool_result(c: dict, d: str, res):
     """What the server would send (json.dumps(result, indent=2)), plus -- for writes -- the hash of the file left on disk."""
     out = {"envelope": json.loads(json.dumps(res, indent=2, default=lambda x: {"$repr": repr(x)}))}
     if c["api"] == "tool.write":
-        p = os.path.join(d, "t.oct.md")
-        if os.path.exists(p):
+        wd = write_dir(c, d)
+        p = os.path.join(wd, "t.oct.md")
+        if os.path.isdir(p):
+            out["file_sha256"] = "<directory>"
+        elif os.path.exists(p):
             with open(p, "rb") as f:
                 out["file_sha256"] = hashlib.sha256(f.read()).hexdigest()
         else:
             out["file_sha256"] = None
-        out["dir"] = sorted(os.listdir(d))
+        out["dir"] = sorted(os.listdir(wd))
+        if wd != d:
+            shutil.rmtree(wd, ignore_errors=True)
     return out
 
 
@@ -590,7 +654,9 @@ def exec_call_sync(c: dict, sandbox: str) -> str:
         res = {"$exc": "RecursionError", "msg": str(e)[:80]}
     except Exception as e:  # noqa: BLE001 -- raising is a result too (same input, same exception)
         res = {"$exc": type(e).__name__, "msg": str(e)}
-    return serialise(res, sandbox)
+    finally:
+        _cleanup_rel(c, d)
+    return serialise(res, sandbox, c)
 
 
 async def exec_call_async(c: dict, sandbox: str) -> str:
@@ -605,7 +671,9 @@ async def exec_call_async(c: dict, sandbox: str) -> str:
         res = {"$exc": "RecursionError", "msg": str(e)[:80]}
     except Exception as e:  # noqa: BLE001
         res = {"$exc": type(e).__name__, "msg": str(e)}
-    return serialise(res, sandbox)
+    finally:
+        _cleanup_rel(c, d)
+    return serialise(res, sandbox, c)
 
 
 # ---- clock seam ----------------------------------------------------------------------------------------------------
